@@ -9,7 +9,7 @@ reads, then next_chunk.
 import importlib
 
 from ..core import Result, Trace
-from ..gen.values import gen_string, gen_int_in_range
+from ..gen.values import gen_string, gen_int_in_range, StringPool
 
 ID = "C06"
 LEVEL = "exploration"
@@ -30,7 +30,7 @@ COMPONENTS = {
     "real": ["eolib.data.EoWriter (sanitisation on)", "eolib.data.EoReader (chunked mode)", "codecs"],
     "stub_or_harness": ["sender/receiver scripts (version-skewed read plans)", "expected-value computation"],
 }
-PROBES = ["overread_spanning_integer", "empty_chunk", "string_only_y_diaeresis", "last_chunk_overread",
+PROBES = ["unsanitised_y_in_header", "overread_spanning_integer", "empty_chunk", "string_only_y_diaeresis", "last_chunk_overread",
           "underread_then_surplus", "first_byte_y_diaeresis", "last_byte_y_diaeresis", "one_char_y_diaeresis"]
 FAULT_KINDS = ["under_read", "over_read"]
 
@@ -43,6 +43,17 @@ def generate(streams, tier):
     rng = streams.get("plan")
     vr = streams.get("values")
     chunks = []
+    pool = StringPool(vr)
+    # an un-chunked header written BEFORE sanitisation is switched on (as generated packets do with the
+    # fields ahead of their <chunked> section); the receiver reads the chunked body through slice()
+    header = []
+    for _ in range(rng.choice([0, 0, 1, 2, 3])):
+        if rng.random() < 0.4:
+            k = rng.choice(INT_KINDS)
+            header.append([k, gen_int_in_range(vr, k)])
+        else:
+            enc = rng.random() < 0.5
+            header.append(["fixed_encoded" if enc else "fixed", pool.get(vr, allow_tilde=not enc)])
     for _ in range(rng.randrange(1, 9)):
         fields = []
         nf = rng.randrange(0, 7)
@@ -53,7 +64,7 @@ def generate(streams, tier):
                 fields.append([k, gen_int_in_range(vr, k)])
             else:
                 enc = rng.random() < 0.5
-                s = gen_string(vr, allow_tilde=not enc)
+                s = pool.get(vr, allow_tilde=not enc)
                 if i == nf - 1 and rng.random() < 0.5:
                     fields.append(["tail_encoded" if enc else "tail", s])
                 else:
@@ -67,10 +78,10 @@ def generate(streams, tier):
             else:
                 surplus.append([op])
         chunks.append({"fields": fields, "prefix": prefix, "surplus": surplus})
-    return {"chunks": chunks}
+    return {"chunks": chunks, "header": header}
 
 
-SHRINK_KEYS = ["chunks"]
+SHRINK_KEYS = ["chunks", "header"]
 
 
 def image(s):
@@ -92,6 +103,17 @@ def execute(plan, env):
         return res
 
     w = EoWriter()
+    header = plan.get("header", [])
+    for f in header:
+        if f[0] in INT_KINDS:
+            getattr(w, "add_" + f[0])(f[1])
+        elif f[0] == "fixed":
+            w.add_fixed_string(f[1], len(f[1]))
+        else:
+            w.add_fixed_encoded_string(f[1], len(f[1]))
+        if isinstance(f[1], str) and "ÿ" in f[1]:
+            res.count("probe.unsanitised_y_in_header")
+    header_len = len(w)
     w.string_sanitization_mode = True
     any_y = False
     for ci, ch in enumerate(chunks):
@@ -122,14 +144,26 @@ def execute(plan, env):
                     res.count("probe.last_byte_y_diaeresis")
     out = bytes(w.to_bytearray())
     tr.ev("sent", out.hex())
-    n_ff = out.count(0xFF)
+    n_ff = out[header_len:].count(0xFF)
     if n_ff != len(chunks) - 1:
         return fail("break-in-payload", "writer", f"{n_ff} bytes 0xFF in the output of {len(chunks)} chunks "
                     f"(expected {len(chunks) - 1}): {out.hex()}", 0)
     r = EoReader(out)
+    step = 0
+    for f in header:
+        step += 1
+        if f[0] in INT_KINDS:
+            got, want = getattr(r, "get_" + f[0])(), f[1]
+        elif f[0] == "fixed":
+            got, want = r.get_fixed_string(len(f[1])), f[1].encode("cp1252", "replace").decode("cp1252", "replace")
+        else:
+            got, want = r.get_fixed_encoded_string(len(f[1])), f[1].encode("cp1252", "replace").decode("cp1252", "replace")
+        if got != want:
+            return fail("header-value", f[0], f"header field {f!r} (written with sanitisation off) read as {got!r}, expected {want!r}", step)
+    if header:
+        r = r.slice()
     r.chunked_reading_mode = True
     classes = []
-    step = 0
     for ci, ch in enumerate(chunks):
         fields, prefix = ch["fields"], min(ch["prefix"], len(ch["fields"]))
         for f in fields[:prefix]:
